@@ -60,9 +60,9 @@ func (k *Keystore) HasKey(ctx context.Context, id string) (bool, error) {
 			return false, errmsg.ErrKeyNotInKeystore.Wrap(err)
 		}
 
-		if storedKey != nil {
-			k.cache.Add(id, base64.StdEncoding.EncodeToString(value))
-		}
+		k.cache.Add(id, base64.StdEncoding.EncodeToString(value))
+
+		return true, nil
 	}
 
 	return storedKey != nil, nil
